@@ -87,7 +87,7 @@ func genLegEvents(r *rand.Rand, coll bool, n int) []LegEvent {
 func (LegacyScenario) GenCase(r *rand.Rand, prop string) interface{} {
 	c := &LegCase{Pkg: pick(r, "middleware", "resbadger"), Default: chance(r, 50), Typed: chance(r, 40), Workers: pick(r, 1, 2, 4)}
 	c.ImagePct = pick(r, 0, 10, 30)
-	for _, p := range []string{"conn.Publish", "event", "rawEvent", "worker.beforeCb", "worker.afterCb", "runWith.beforeLock", "handler", "handleRequest"} {
+	for _, p := range []string{"conn.Publish", "event", "rawEvent", "worker.beforeCb", "worker.afterCb", "runWith.beforeLock", "handler", "handleRequest", "auto.lock"} {
 		if chance(r, 60) {
 			c.Optional = append(c.Optional, p)
 		}
